@@ -139,6 +139,9 @@ class LinearAlgebraMethods(object):
                 if current > biggest: # TODO: what if equal?
                     biggest = current
                     p[j] = k
+            if p[j] is None:
+                # the whole column is zero
+                raise ZeroDivisionError('matrix is numerically singular')
             # swap rows according to p
             ctx.swap_row(A, j, p[j])
             if ctx.absmin(A[j,j]) <= tol:
